@@ -92,6 +92,20 @@ class Hist:
         if path != want:
             self.problems.append(('path', self.rep(real_op=descr, observed=path, expected=want)))
 
+    def check_account_key(self, pm, wt, net, acct, descr):
+        """the account public key handed out: documented path m/purpose'/coin'/account', public part of the BIP32 key there, not private"""
+        ctx = self.ctx
+        purpose = {'legacy': 44, 'p2sh-segwit': 49, 'segwit': 84}[wt]
+        want = "m/%d'/%d'/%d'" % (purpose, NETS[net], acct)
+        r = run_driver(['bip32 %s %s' % (self.seed.hex(), want)])[0].split(' | ')[0]
+        fields = dict(x.split('=') for x in r.split(' ')[1:]) if r != 'none' else {}
+        ctx.evals += 1
+        ctx.count('public_master')
+        hk = pm.key()
+        if pm.path != want or pm.is_private or hk.is_private or hk.public_hex != fields.get('pub') or pm.network.name != net:
+            self.problems.append(('account-key', self.rep(real_op=descr, observed={'path': pm.path, 'is_private': pm.is_private, 'pub': hk.public_hex,
+                                                                                   'network': pm.network.name}, expected={'path': want, 'pub': fields.get('pub'), 'network': net})))
+
     # ------------------------------------------------------------------------------------------------
     def run(self):
         from bitcoinlib.wallets import Wallet, WalletError
@@ -113,6 +127,7 @@ class Hist:
         other_net = [n for n in NETS if n != self.net and NETS[n] != NETS[self.net]]
         nets_used = [self.net]
         accounts = [self.defacct]
+        accounts_net = {}            # accounts on the other networks of this wallet
         if self.defacct != 0:
             # the wallet's default account is not 0: account 0 named explicitly must be account 0
             purpose = {'legacy': 44, 'p2sh-segwit': 49, 'segwit': 84}[self.wt]
@@ -204,7 +219,14 @@ class Hist:
             net = self.net
             change = rng.choice([0, 0, 1])
             kw = {}
-            if acct != self.defacct:
+            if accounts_net and rng.random() < 0.45:
+                # a key of another network of this wallet (own witness type only: its account was created for that)
+                net = rng.choice(sorted(accounts_net))
+                acct = rng.choice(accounts_net[net])
+                wt = self.wt
+                kw['network'] = net
+                kw['account_id'] = acct
+            elif acct != self.defacct:
                 kw['account_id'] = acct          # also account 0, named explicitly, when it is not the default
             if wt != self.wt:
                 kw['witness_type'] = wt
@@ -232,7 +254,13 @@ class Hist:
                     cand = [k for k in w.keys(depth=5) if not k.used and k.path[2:] in self.modelid]
                     if cand:
                         k = rng.choice(cand)
-                        w.utxo_add(k.address, 10000, '%064x' % rng.getrandbits(250), 0, confirmations=1)
+                        if accounts_net:
+                            # (utxo_add on a wallet with several networks goes on to ask the service providers about the other networks)
+                            w.utxos_update(networks=k.network.name, account_id=k.account_id, rescan_all=False,
+                                           utxos=[{'address': k.address, 'script': '', 'confirmations': 1, 'output_n': 0,
+                                                   'txid': '%064x' % rng.getrandbits(250), 'value': 10000}])
+                        else:
+                            w.utxo_add(k.address, 10000, '%064x' % rng.getrandbits(250), 0, confirmations=1)
                         self.ops.append('used.%d' % self.modelid[k.path[2:]])
                         self.descr.append('utxo_add on %s (key becomes used)' % k.path)
                         self.real.append([])
@@ -240,6 +268,32 @@ class Hist:
                     idx = rng.choice([0, 1, 2, 3, 5, 7, 12])
                     k = w.key_for_path([change, idx], **kw)
                     self.record('at.%s.%d' % (c, idx), [k], 'key_for_path([%d, %d], %s)' % (change, idx, kw))
+                elif r < 0.905:
+                    # the account public key is asked for in the middle of the history: it must be the documented one, and it must not
+                    # change what the wallet hands out afterwards
+                    pmkw = dict(kw)
+                    pm = w.public_master(**pmkw)
+                    self.check_account_key(pm, wt, net, acct, 'public_master(%s)' % pmkw)
+                    self.descr.append('public_master(%s)' % pmkw)
+                    self.ops.append('used.0')
+                    self.real.append([])
+                elif r < 0.925 and not accounts_net and self.defacct == 0 and other_net:
+                    onet = rng.choice(other_net)
+                    a = w.new_account(network=onet)
+                    want = "m/%d'/%d'/%d'" % ({'legacy': 44, 'p2sh-segwit': 49, 'segwit': 84}[self.wt], NETS[onet], a.account_id)
+                    if a.path != want or a.account_id != 0 or a.network.name != onet:
+                        self.problems.append(('account', self.rep(real_op='new_account(network=%s)' % onet, observed=(a.path, a.account_id, a.network.name), expected=want)))
+                    accounts_net[onet] = [a.account_id]
+                    self.ctx.count('second-network-account')
+                    for chg in (0, 1):
+                        self.ops.append('at.%s.0' % self.chain(self.wt, onet, a.account_id, chg))
+                        self.descr.append('new_account(network=%s) -> key %d/0' % (onet, chg))
+                        self.real.append([])
+                    ms = run_driver(['keypaths 0 ' + ';'.join(self.ops)])[0].split(' | ')[0].split(';')[-2:]
+                    for m in ms:
+                        for x in ([] if m in ('-', 'none') else m.split(',')):
+                            xs = x.split(':')
+                            self.modelid[xs[2]] = int(xs[0])
                 elif r < 0.94 and len(accounts) < 3:
                     a = w.new_account()
                     accounts.append(a.account_id)
@@ -321,6 +375,116 @@ class Hist:
                         break
             if name == 'account-xpub' and any(k.is_private for k in w2.keys()):
                 self.problems.append(('recreate', self.rep(variant=name, observed='watch-only wallet holds private keys')))
+            if name == 'account-xpub' and self.defacct == 0:
+                # the watch-only wallet is given its private master key, is closed and reopened, and goes on handing out keys
+                try:
+                    w2.import_master_key(HDKey.from_seed(self.seed, witness_type=self.wt, network=self.net))
+                    ctx.count('import_master_key')
+                    for stage in ('same object', 'reopened'):
+                        if stage == 'reopened':
+                            w2 = Wallet('re_account_xpub', db_uri=self.db)
+                        k3 = w2.new_key()
+                        self.check_key(k3, 'watch-only wallet after import_master_key (%s): new_key()' % stage)
+                        if not k3.is_private:
+                            self.problems.append(('derivation', self.rep(real_op='new_key() after import_master_key (%s)' % stage, observed='public-only key', path=k3.path)))
+                except Exception as e:
+                    self.problems.append(('recreate', self.rep(variant='account-xpub + import_master_key', error=repr(e)[:160])))
+
+
+class HistMs(Hist):
+    """the same machine for a cosigner wallet of an m-of-n multisig: keys are issued one by one and in bulk, on both chains"""
+
+    def create(self):
+        from bitcoinlib.wallets import Wallet
+        from bitcoinlib.keys import HDKey
+        rng = self.rng
+        self.db = 'sqlite:///' + os.path.join(os.environ['BCL_DATA_DIR'], 'c09ms_%s_%s_%s_%s.sqlite' % (self.wt.replace('-', '_'), self.net, self.ctx.seed, self.hseed))
+        n = rng.choice([2, 3])
+        seeds = [bytes(rng.randrange(256) for _ in range(32)) for _ in range(n)]
+        own = rng.randrange(n)
+        keys = []
+        for j, sd in enumerate(seeds):
+            hk = HDKey.from_seed(sd, witness_type=self.wt, multisig=True, network=self.net)
+            keys.append(hk if j == own else hk.public_master_multisig(witness_type=self.wt))
+        self.w = Wallet.create('w', keys=keys, sigs_required=rng.randrange(1, n + 1), witness_type=self.wt, network=self.net, db_uri=self.db)
+        self.cos = self.w.cosigner_id
+
+    def chain(self, wt, net, acct, change):
+        return '%s.%d.%d.%d.%d' % (wt, NETS[net], acct, change, self.cos)
+
+    def check_key(self, k, descr):
+        # (scripts and addresses of cosigner wallets are C10's; here: the stored index is the index of the path)
+        last = k.path.split('/')[-1]
+        if str(k.address_index) != last.strip("'"):
+            self.problems.append(('path', self.rep(real_op=descr, observed='address_index %s at %s' % (k.address_index, k.path), expected=last)))
+
+    def record(self, op, keys, descr):
+        self.ops.append(op)
+        self.descr.append(descr)
+        self.real.append([(int(k.path.split('/')[-1]), k.path[2:] if k.path.startswith('m/') else k.path) for k in keys])
+        model = run_driver(['keypaths 1 ' + ';'.join(self.ops)])[0].split(' | ')[0].split(';')[-1]
+        self.ctx.evals += 1
+        self.ctx.count('ms-op:' + op.split('.')[0])
+        got = ','.join('%d:%s' % x for x in self.real[-1]) or '-'
+        mrows = [] if model in ('-', 'none') else [m.split(':') for m in model.split(',')]
+        mstr = ','.join('%s:%s' % (m[1], m[2]) for m in mrows) or '-'
+        for m in mrows:
+            self.modelid[m[2]] = int(m[0])
+        if got != mstr:
+            self.problems.append(('machine', self.rep(op=op, real_op=descr, observed=got, model=mstr)))
+            return False
+        for k in keys:
+            self.check_key(k, descr)
+        return True
+
+    def run(self):
+        from bitcoinlib.wallets import Wallet, WalletError
+        rng = self.rng
+        self.create()
+        for step in range(self.nops):
+            if self.problems:
+                break
+            w = self.w
+            r = rng.random()
+            change = rng.choice([0, 0, 1])
+            c = self.chain(self.wt, self.net, 0, change)
+            try:
+                if r < 0.25:
+                    k = w.new_key(change=change)
+                    self.record('new.%s.1' % c, [k], 'new_key(change=%d)' % change)
+                elif r < 0.45:
+                    n = rng.choice([2, 3, 4])
+                    ks = w.new_keys(number_of_keys=n, change=change)
+                    self.record('new.%s.%d' % (c, n), ks, 'new_keys(%d, change=%d)' % (n, change))
+                elif r < 0.6:
+                    k = w.get_key(change=change)
+                    self.record('get.%s.1' % c, [k], 'get_key(change=%d)' % change)
+                elif r < 0.75:
+                    n = rng.choice([2, 3, 5])
+                    ks = w.get_keys(number_of_keys=n, change=change)
+                    self.record('get.%s.%d' % (c, n), ks, 'get_keys(%d, change=%d)' % (n, change))
+                elif r < 0.9:
+                    cand = [k for k in w.keys(depth=w.key_depth) if not k.used and k.path[2:] in self.modelid]
+                    if cand:
+                        k = rng.choice(cand)
+                        w.utxo_add(k.address, 10000, '%064x' % rng.getrandbits(250), 0, confirmations=1)
+                        self.ops.append('used.%d' % self.modelid[k.path[2:]])
+                        self.descr.append('utxo_add on %s (key becomes used)' % k.path)
+                        self.real.append([])
+                else:
+                    self.w = Wallet('w', db_uri=self.db)
+                    self.descr.append('close + reopen')
+                    self.ops.append('used.0')
+                    self.real.append([])
+            except WalletError as e:
+                self.problems.append(('refused', self.rep(real_op='multisig %s' % self.wt, error=str(e)[:100])))
+                self.w.session.rollback()
+        # no two key rows of the wallet share an address or a path
+        w = Wallet('w', db_uri=self.db)
+        leaves = [k for k in w.keys(depth=w.key_depth)]
+        addrs = [k.address for k in leaves]
+        if len(set(addrs)) != len(addrs) or len(set(k.path for k in leaves)) != len(leaves):
+            self.problems.append(('duplicate-address', self.rep(observed=sorted(a for a in addrs if addrs.count(a) > 1)[:4])))
 
 
 def path_expand_checks(ctx):
@@ -355,6 +519,7 @@ def run(ctx):
     path_expand_checks(ctx)
     configs = [('segwit', 'bitcoin', 'hdkey'), ('legacy', 'bitcoin', 'mnemonic'), ('p2sh-segwit', 'litecoin', 'xprv'), ('segwit', 'testnet', 'mnemonic'),
                ('legacy', 'dogecoin', 'hdkey')]
+    configs += [('segwit', 'bitcoin', 'multisig'), ('legacy', 'bitcoin', 'multisig'), ('p2sh-segwit', 'testnet', 'multisig')]
     per = 2 if not ctx.thorough else 6
     nops = 14 if not ctx.thorough else 40
     if ctx.thorough:
@@ -366,7 +531,7 @@ def run(ctx):
         todo = [((r['wt'], r['net'], r['how']), r['hseed'])]
         nops = r.get('nops', nops)
     for (wt, net, how), hseed in todo:
-        h = Hist(ctx, wt, net, how, hseed, nops)
+        h = (HistMs if how == 'multisig' else Hist)(ctx, wt, net, how, hseed, nops)
         h.run()
         ctx.traces += 1
         ctx.nontrivial.add(hash((wt, net, how, hseed)))
@@ -377,12 +542,12 @@ def run(ctx):
                    'path': 'a key does not lie at the documented path', 'account': 'new_account: wrong path or account number',
                    'duplicate-address': 'two keys of a wallet share an address', 'repeated-index': 'an address index was issued twice',
                    'gap': 'address indices were issued with a gap', 'recreate': 're-created wallet does not reproduce the addresses',
-                   'refused': 'a key request was refused'}[kind]
+                   'refused': 'a key request was refused', 'account-key': 'the account public key is not the documented one'}[kind]
             if kind == 'refused':
                 ctx.count('refused-request')
                 continue
             ctx.violation(msg, dict(rep, op=kind))
-    ctx.assumptions += ['single-signature HD wallets; the multisig path structures are covered by the table / path theorems and by C10',
+    ctx.assumptions += ['single-signature HD wallets and cosigner wallets of m-of-n multisigs (index / path machine; their scripts and addresses are C10\'s)',
                         'key material and addresses are checked against the Lean BIP32 (C03) and address (C04/C11) functions']
 
 
